@@ -85,7 +85,49 @@ func allProps() []Prop {
 		meJobs = append(meJobs, Job{Dir: me, Harness: "multiendpoint", Entry: "VerifH_me", Flags: []string{fmt.Sprintf("n0=%d", n0), "steps=1"}, Tier: "quick"})
 		meJobs = append(meJobs, Job{Dir: me, Harness: "multiendpoint", Entry: "VerifH_me", Flags: []string{fmt.Sprintf("n0=%d", n0), "steps=2"}, Tier: "thorough", TmoMs: 120000})
 	}
+	ckBounds := map[string]string{"payload": "standard encoding of 0..4 (quick) / 0..16 (thorough) arbitrary bytes; all 2^32 checksum values", "loop unroll": "20"}
+	ckJobs := []Job{{Dir: "e2e-checksum", Harness: "e2e-checksum", Entry: "VerifH_ck", Unroll: 20}}
+	keysJobs := cat(
+		caseJobs("VerifH_keys", map[string][]int{"msgKind": {0}, "nseg": {1, 2, 3, 4}}, []string{"msgKind", "nseg"}, "realKeys"),
+		caseJobs("VerifH_keys", map[string][]int{"msgKind": {1, 2, 3}, "nseg": {1, 2}}, []string{"msgKind", "nseg"}, "realKeys"),
+		one("VerifH_keysloc", "realKeys"))
+	keysBounds := map[string]string{
+		"type family": "vTop{Id string; Mid *vMid; Mids []*vMid; Leaf vLeaf}, vMid{Key string; In *vLeaf; Items []*vLeaf; Vals []vLeaf; Names []string; Nums []int64; Any interface{} (nil | string | *vLeaf | vLeaf); M map[string]string}, vLeaf{Name string; Num int64; Flag bool; hidden string}; every pointer possibly nil; slices of 0..2; plus nil / string / []string messages, the harness message type and generated pb.AffinityConfig / pb.MethodConfig",
+		"locator":     "path of 1..4 segments, each a symbolic choice among the field names in either case, an unknown name, the empty segment (strings.Split is exercised separately on 7 constant locators)",
+		"loop unroll": "6",
+	}
+	icptJobs := cat(one("VerifH_unary"), one("VerifH_stream", "steps=4"), one("VerifH_streamwait"))
+	icptJobs[2].NoReplay = true // natively the receiver would block in the real cond.Wait: no sender goroutine in the replay
+	icptBounds := map[string]string{"calls": "any sequence of up to 4 calls out of SendMsg/Header/Trailer/CloseSend/Context/RecvMsg-after-first-send from one goroutine; creation succeeding or failing", "interleaving": "one receiver blocked in cond.Wait + one sender running the real SendMsg while it is blocked (or nobody: context ends); lock discipline of ClientStream/initStreamErr as lockset obligations", "options": "0..2 call options", "loop unroll": "6"}
+	var gmeQuick, gmeAll []Job
+	for _, in := range []int{0, 1, 2} {
+		for _, ud := range []int{0, 1} {
+			for _, ur := range []int{0, 1} {
+				for _, udef := range []int{0, 1, 2} {
+					j := Job{Dir: gcp, Harness: gcp, Entry: "VerifH_gme", Flags: []string{fmt.Sprintf("init=%d", in), fmt.Sprintf("ud=%d", ud), fmt.Sprintf("ur=%d", ur), fmt.Sprintf("udef=%d", udef)}, TmoMs: 60000}
+					if in != 0 {
+						j.Tier = "thorough"
+					}
+					gmeAll = append(gmeAll, j)
+					if in == 0 {
+						gmeQuick = append(gmeQuick, j)
+					}
+				}
+			}
+		}
+	}
+	gmeNew := caseJobs("VerifH_gmenew", map[string][]int{"bad": {0, 1, 2}}, []string{"bad"})
+	gmeNotify := caseJobs("VerifH_gmenotify", map[string][]int{"flip0": {0, 1, 2}, "flip1": {0, 1, 2}}, []string{"flip0", "flip1"})
+	gmeJobs := cat(gmeAll, gmeNew, gmeNotify)
+	gmeBounds := map[string]string{"endpoints": "3 endpoint names", "multiendpoints": "names default/read (+ one name without options, + one unknown name in RPC contexts); lists of 0..2 distinct endpoints", "initial configuration": "quick: default=[a,b], read=[b]; thorough also default=[a] alone and default=[a,b], read=[c,a]", "updates": "one fully symbolic UpdateMultiEndpoints (which MultiEndpoints are present, their lists, the default name, a dial failing at a symbolic position), then RPCs with 4 contexts, Invoke/NewStream, Close (close errors symbolic)", "timers": "recovery timeout and switching delay 0 (the timed behaviour is C13/C14)", "loop unroll": "6"}
+	gmeAssume := append(append([]string{}, commonAssume...), "*grpc.ClientConn is opaque: GetState/Close/Invoke/NewStream are harness summaries over ghost {ready, closed}; context.WithCancel is a harness summary (ghost spawn/cancel pairs stand for monitor goroutines); `go mc.monitor` is recorded, one monitor iteration is exercised by calling notify; protojson.Marshal and grpc.With* options are opaque", "'within bounded time' after a real connectivity change is the gRPC runtime's WaitForStateChange: not covered")
 	return []Prop{
+		{ID: "C12", Jobs: icptJobs, Panics: true, Progress: true, Lockset: true, Assume: commonAssume, Bounds: icptBounds},
+		{ID: "C15", Jobs: gmeJobs, Assume: gmeAssume, Bounds: gmeBounds},
+		{ID: "C16", Jobs: gmeJobs, Panics: true, Assume: gmeAssume, Bounds: gmeBounds},
+		{ID: "C17", Jobs: cat(initJ, gmeQuick[6:7]), Assume: append(append([]string{}, commonAssume...), "proto.Clone is modelled as a structural deep copy of the exported fields of the message object graph", "NOT covered: the JSON parser (protojson.Unmarshal behind ParseConfig) - reflection-driven library code outside the executor; 'accepts exactly the well-formed JSON renderings and round-trips them' is not claimed"), Bounds: map[string]string{"config": "ApiConfig present or nil, ChannelPool present or nil, all scalars full-width symbolic, 0..2 method entries x 0..2 names (symbolic strings, possibly equal), affinity section present or nil per entry; a second resolver update with another symbolic configuration", "minSize": "<= 3 (at most 4 connections at start)", "loop unroll": "6"}},
+		{ID: "C11", Jobs: keysJobs, Panics: true, Assume: append(append([]string{}, commonAssume...), "package reflect is modelled by intrinsics (ValueOf, Kind, Elem, FieldByName, Len, Index, String) over the symbolic heap following its documented semantics; strings.Split/Title are applied to constants", "types outside the bounded family (embedded pointer-to-struct fields, arrays, pointer-to-pointer) and locators needing Unicode title-casing are not covered"), Bounds: keysBounds},
+		{ID: "C19", Jobs: ckJobs, Panics: true, Assume: append(append([]string{}, commonAssume...), "crc32.MakeTable/Checksum are an uninterpreted function of (polynomial, exact byte slice): the arithmetic of CRC32C (stdlib, partly assembly) is not encoded", "the inner codec is a harness fake returning arbitrary bytes: 'decodes to an equal message' inside the protobuf runtime is reduced to 'a conforming parser (real protowire.ConsumeField) skips exactly the 6-byte prefix'"), Bounds: ckBounds},
 		{ID: "C13", Jobs: meJobs, Panics: true, Assume: commonAssume, Bounds: meBounds},
 		{ID: "C14", Jobs: meJobs, Assume: commonAssume, Bounds: meBounds},
 		{ID: "C01", Jobs: cat(usc, uccs, pick, done), Assume: commonAssume, Bounds: gbBounds},
